@@ -71,6 +71,16 @@ def run(S):
                 sb = st[9 * b:9 * b + 9]
                 Etr.append(J.to_obj(J.symbolic_call(lambda h, s: mod._compute_elastic_logarithmic_strain(h, s), H, sb)))
             Snew = J.to_obj(J.symbolic_call(lambda h, s, d, p: mod._compute_state_new(h, s, d, p), H, st, dt, parr))
+            # composition the isochoric-flow lemma rests on: new viscous distortion of branch b = expm(increment_b(trial strain_b)) @ old one
+            import jax.scipy.linalg as jsl
+            Sexp = []
+            for b in range(nb):
+                def compose(h, s, d, p, b=b):
+                    sb = s[9 * b:9 * b + 9]
+                    Ee = mod._compute_elastic_logarithmic_strain(h, sb)
+                    inc = mod._compute_state_increment(Ee, d, p, 2 + 2 * b) if multi else mod._compute_state_increment(Ee, d, p)
+                    return (jsl.expm(inc) @ sb.reshape(3, 3)).ravel()
+                Sexp.append(J.to_obj(J.symbolic_call(compose, H, st, dt, parr)))
             # objectivity of trial strain / state update: F -> QF
             H2 = Q.dot(H + I3) - I3
             Etr2 = [J.to_obj(J.symbolic_call(lambda h, s: mod._compute_elastic_logarithmic_strain(h, s), H2, st[9 * b:9 * b + 9])) for b in range(nb)]
@@ -113,6 +123,8 @@ def run(S):
         _mod(S, so3, q + '._compute_state_new/viscous_distortion_update_unchanged_by_superposed_rotation',
              [(Snew2[i], Snew[i]) for i in range(9 * nb)], conv)
         # branch slicing: the update of branch b is expm(increment_b) @ Fv_b
+        ideal.add_ideal_obligation(S, q + '._compute_state_new/new_viscous_distortion_is_expm_of_the_traceless_increment_times_the_old_one', [],
+                                   [(Snew[9 * b + k], Sexp[b][k]) for b in range(nb) for k in range(9)], fallback_hyps=pos)
         S.canary(q, pos)
         S.notes.append('%s done at %.1fs' % (q, time.time() - T0))
     bounded(S)
